@@ -313,6 +313,7 @@ fn parent_main<H: Harness>(h: H, a: Args, plan: crate::Plan) -> i32 {
     let mut abnormal: Vec<Abnormal> = Vec::new();
     let mut machinery: Vec<String> = Vec::new();
     let mut respawns = 0usize;
+    let mut seen_case: Vec<Option<(u64, u64)>> = vec![None; workers];
     loop {
         let mut any = false;
         for w in 0..live.len() {
@@ -349,7 +350,16 @@ fn parent_main<H: Harness>(h: H, a: Args, plan: crate::Plan) -> i32 {
                 }
                 Ok(None) => {
                     if let Some((t, job, prefix)) = ctl.current(w) {
-                        if now_ms().saturating_sub(t) > plan.case_deadline_ms {
+                        // a case is declared hung when it has been running longer than the deadline in
+                        // wall time AND its worker has burnt at least half the deadline in CPU time on it
+                        // (a starved worker on an overloaded machine is not a hang); hard cap 10x deadline
+                        let pid = child.id();
+                        if seen_case[w].map(|(st, _)| st) != Some(t) {
+                            seen_case[w] = Some((t, proc_cpu_ms(pid)));
+                        }
+                        let wall = now_ms().saturating_sub(t);
+                        let cpu_used = proc_cpu_ms(pid).saturating_sub(seen_case[w].map(|(_, c)| c).unwrap_or(0));
+                        if wall > plan.case_deadline_ms && (cpu_used * 2 >= plan.case_deadline_ms || wall > 10 * plan.case_deadline_ms) {
                             child.kill().ok();
                             child.wait().ok();
                             live[w] = None;
@@ -678,6 +688,17 @@ fn parent_main<H: Harness>(h: H, a: Args, plan: crate::Plan) -> i32 {
         return 2;
     }
     0
+}
+
+/// user + system CPU time of a process in milliseconds (from /proc/<pid>/stat; 0 if unreadable)
+fn proc_cpu_ms(pid: u32) -> u64 {
+    let Ok(s) = std::fs::read_to_string(format!("/proc/{}/stat", pid)) else { return 0 };
+    // fields after the parenthesised command name: state is field 3, utime 14, stime 15
+    let Some(rest) = s.rsplit(')').next() else { return 0 };
+    let f: Vec<&str> = rest.split_whitespace().collect();
+    let ticks: u64 = f.get(11).and_then(|x| x.parse::<u64>().ok()).unwrap_or(0) + f.get(12).and_then(|x| x.parse::<u64>().ok()).unwrap_or(0);
+    let hz = unsafe { libc::sysconf(libc::_SC_CLK_TCK) }.max(1) as u64;
+    ticks * 1000 / hz
 }
 
 fn merge_site(sites: &mut BTreeMap<String, SiteStat>, k: &str, v: &SiteStat) {
